@@ -2,7 +2,7 @@
    Statements only; proofs in Proofs/FrameL.v (layer contracts), Proofs/FrameP.v (the loop over a chain of
    layers, the full-capture theorem), Proofs/PacketP.v. *)
 From Coq Require Import List NArith Bool.
-From GF Require Import Base.Res Base.Bytes Base.Gen Model.Msg Model.Packet Spec.Frame Proofs.PacketP Proofs.FrameL Proofs.FrameP.
+From GF Require Import Base.Res Base.Bytes Base.Gen Model.Msg Model.Packet Spec.Frame Model.ProdNF Proofs.PacketP Proofs.FrameL Proofs.FrameP Proofs.SFlowE2E.
 Import ListNotations.
 Open Scope N_scope.
 
@@ -41,6 +41,17 @@ Theorem c10_full_capture_on : forall m0 f extra, wf_frame f = true ->
   exists m, parse_packet empty_pcfg m0 (encode_frame f ++ extra) = Ok m /\ meq m (framed m0 f).
 Proof. exact parse_full_capture_on. Qed.
 Print Assumptions c10_full_capture_on.
+
+(* IPFIX dataLinkFrameSection (element 315): the frame carried in a flow record is dissected into the record's
+   message exactly as above; packets = 1 and bytes falls back to the section's length *)
+Theorem c10_ipfix_frame_section : forall f m0 base up,
+  wf_frame f = true ->
+  mgetLI m0 cLayerStack = [] -> mgetLI m0 cLayerSize = [] -> mgetLB m0 cRhAddrs = [] ->
+  exists m1, parse_packet empty_pcfg m0 (encode_frame f) = Ok m1 /\ meq m1 (framed m0 f) /\
+    nf_field empty_prodcfg 10 base up m0 315 (encode_frame f) =
+    Ok (let m2 := msetI m1 cPackets 1 in if mgetI m2 cBytes =? 0 then msetI m2 cBytes (lenN (encode_frame f)) else m2).
+Proof. exact ipfix_frame_section. Qed.
+Print Assumptions c10_ipfix_frame_section.
 
 Theorem c10_meq_observable : forall m b, meq m b -> show_msg m = show_msg b.
 Proof. exact meq_show. Qed.
